@@ -12,62 +12,198 @@ COQ_CHECK = "C24.Corr.check_case"
 COQ_MODEL_OBS = "(fun c => C24.Corr.model_obs (fst c))"
 COQ_SHARD = 400
 DESIGN_REF = "§5 C24"
-TECHNIQUE = ("Coq proof (invariant over every schedule of the transaction machine with a rejecting writer and commit-time re-validation of the merged "
-             "state) + in-Coq correspondence: committed table dumped after every statement and checked by an independent constraint evaluator")
-LEVEL_TEXT = ("Proof (partial): for PRIMARY KEY, UNIQUE and CHECK on one table, for every schedule of concurrent transactions, Coq proves that every committed "
-              "state satisfies the constraints PROVIDED statements that would violate a constraint are rejected by the engine (modelled as an oracle: the "
-              "rejecting writer) and the non-fast-forward commit re-validates the merged state and rolls back on a violation (as validateWorkingSetForCommit "
-              "does with the violations recorded by the merge). What rests on the engine: go-mysql-server's statement-level enforcement, the merge validators "
-              "finding every violation of the merged rows. Not covered: NOT NULL, FOREIGN KEY, dolt_merge of branches recording dolt_constraint_violations, "
-              "disabled checks / dolt_force_transaction_commit.")
-LEVEL_NOTE = ("Trusted: Coq kernel, Go harness + Python glue. Modelled, not verified: statement-level constraint enforcement (oracle), uniqValidator / "
-              "checkValidator completeness (the model re-validates the whole merged table), error texts mapped to classes.")
-THEOREMS = ["committed_consistent_partial", "failed_commit_keeps_committed_state"]
-RULE = ("C23 schedules on t(pk,a,b) with UNIQUE KEY(a) and CHECK(a<=b), values 0-2/NULL so that single statements and combinations of valid transactions "
-        "frequently violate; committed table dumped after every statement; non-trivial = a commit attempt with changes; distinct by schedule content")
-ASSUMPTIONS = ["constraints: PRIMARY KEY, UNIQUE, CHECK on a single table; no FOREIGN KEY / NOT NULL; checks not disabled"]
-REQUIRED_TAGS = ["commit-ok", "stmt-constraint-error", "commit-constraint-error", "commit-conflict", "merge-nonff"]
-EXPLANATION = ("The model mirrors uniqValidator.validateDiff including its stale-entry behaviour: a transaction merge that moves a unique value from one row "
-               "to another is refused with a constraint-violation error although the merged table is valid (spurious refusal; committed data stays consistent, "
-               "so the property itself is not violated).")
+TECHNIQUE = ("Coq proof: invariant over every schedule of the transaction machine (statement-level enforcement as an explicit oracle hypothesis, "
+             "commit-time validators modelled from validateWorkingSetForCommit / uniqValidator / checkValidator / nullValidator / RegisterForeignKeyViolations "
+             "and proved sound) + exactness of the recorded CHECK / NOT NULL / FOREIGN KEY violations of a merge + in-Coq correspondence on two-table "
+             "schedules and forced-commit branch merges, with an independent constraint evaluator as oracle")
+LEVEL_TEXT = ("Proof (F/M for transaction commits; partial overall): two tables p(pk, a NOT NULL, b), t(pk, a UNIQUE, b REFERENCES p(pk), CHECK a<=b). "
+              "committed_consistent: for every schedule of concurrent transactions every committed database satisfies PK / NOT NULL / CHECK / UNIQUE / FOREIGN KEY, "
+              "given (explicit hypothesis) that the engine's statement execution keeps a valid working state valid for sessions that have not disabled checks; "
+              "the commit-time validators are modelled diff-wise as in the code and proved sound (validators_sound: they find nothing => merged state valid; "
+              "uscan_nothing_unique for the unique validator with its stale-entry behaviour). violations_exact_partial: after a merge the recorded CHECK, NOT NULL "
+              "and FOREIGN KEY violations are exactly the rows of the merged data breaking them; for UNIQUE exactness is refuted on the faithful model "
+              "(uniq_violations_exact_refuted: a merge moving a unique value between rows records a violation on a valid table) and completeness is not proved.")
+LEVEL_NOTE = ("Trusted: Coq kernel, Go harness + Python glue. Oracle hypothesis, not verified: go-mysql-server / table-writer statement-level enforcement "
+              "(instantiated in the correspondence by a rejecting writer that re-validates the whole state). Modelled, not verified: prolly diffs (key-wise "
+              "comparison), artifact maps (sets of keys per violation type). Not covered: CASCADE / SET NULL actions, several unique keys per table, NOT NULL "
+              "added by a schema merge, foreign_key_checks=0 sessions (explicit exception: outside the enforcement hypothesis; probed by hand: an orphan row is committed).")
+THEOREMS = ["committed_consistent", "validators_sound", "uscan_nothing_unique", "exec_c_enforces", "failed_commit_keeps_committed_state",
+            "row_violations_exact", "fk_violations_exact", "violations_exact_partial", "merge_keeps_notnull"]
+REFUTED = ["uniq_violations_exact_refuted"]
+RULE = ("txn cases: C23-style schedules over both tables (child keys 1-4, parent keys 101-103; values 0-2/NULL, child.b in parent pks) so that single statements "
+        "and combinations of valid transactions frequently violate UNIQUE / CHECK / FK; committed database dumped after every statement. merge cases: two "
+        "branches with 1-5 statements each on disjoint or overlapping rows, merged with @@dolt_force_transaction_commit=1; non-trivial = a commit attempt "
+        "with changes or a merge with recorded violations; distinct by content")
+ASSUMPTIONS = ["constraints: PRIMARY KEY, NOT NULL, UNIQUE (one), CHECK, FOREIGN KEY (RESTRICT) on two tables; checks not disabled in the generated sessions",
+               "branch-merge cases with data conflicts are reported as such (merr=5) and not judged"]
+REQUIRED_TAGS = ["commit-ok", "stmt-constraint-error", "commit-constraint-error", "commit-conflict", "merge-nonff",
+                 "merge-case", "rec-fk", "rec-unique", "rec-check", "merge-clean"]
+EXPLANATION = ("The model mirrors uniqValidator.validateDiff including its stale-entry behaviour: a merge that moves a unique value from one row to another is "
+               "reported as a unique violation although the merged table is valid (spurious refusal of a transaction / spurious recorded violation of a branch "
+               "merge); committed data stays consistent, so the property itself is not violated.")
+
+CH = [1, 2, 3, 4]
+PA = [101, 102, 103]
+K = G
+
+
+def _cv(rng):
+    return -1 if rng.random() < 0.12 else rng.randint(0, 2)
+
+
+def _fkv(rng):
+    return -1 if rng.random() < 0.1 else rng.randint(1, 3)
+
+
+def gen_stmt2(rng, sess):
+    """one statement over both tables"""
+    r = rng.random()
+    if r < 0.06:
+        return [sess, K.K_BEGIN, 0, 0, 0]
+    if r < 0.22:
+        return [sess, K.K_COMMIT, 0, 0, 0]
+    if r < 0.25:
+        return [sess, K.K_ROLLBACK, 0, 0, 0]
+    if r < 0.32:
+        return [sess, K.K_SELECT, 0, 0, 0]
+    return gen_dml2(rng, sess)
+
+
+def gen_dml2(rng, sess):
+    if rng.random() < 0.3:
+        k = rng.choice(PA)
+        r = rng.random()
+        if r < 0.35:
+            return [sess, K.K_INSERT, k, _cv(rng), _cv(rng)]
+        if r < 0.65:
+            return [sess, K.K_DELETE, k, 0, 0]
+        if r < 0.9:
+            return [sess, K.K_UPDATE, k, rng.randint(0, 1), _cv(rng)]
+        return [sess, K.K_UPDADD, k, rng.randint(0, 1), 1]
+    k = rng.choice(CH)
+    r = rng.random()
+    if r < 0.35:
+        return [sess, K.K_INSERT, k, _cv(rng), _fkv(rng)]
+    if r < 0.5:
+        return [sess, K.K_DELETE, k, 0, 0]
+    if r < 0.75:
+        return [sess, K.K_UPDATE, k, 0, _cv(rng)]
+    if r < 0.92:
+        return [sess, K.K_UPDATE, k, 1, _fkv(rng)]
+    return [sess, K.K_UPDADD, k, rng.randint(0, 1), 1]
+
+
+def gen_init(rng):
+    init = []
+    parents = [k for k in PA if rng.random() < 0.75] or [101]
+    for k in parents:
+        init.append([k, rng.randint(0, 2), _cv(rng)])
+    used = set()
+    for k in CH:
+        if rng.random() < 0.55:
+            b = rng.choice(parents) - 100 if rng.random() < 0.85 else -1
+            a = _cv(rng)
+            if a >= 0 and (a in used or (b >= 0 and a > b)):
+                a = -1
+            if a >= 0:
+                used.add(a)
+            init.append([k, a, b])
+    return init
+
+
+def gen_txn(rng):
+    nsess = rng.choice([2, 2, 3, 3, 4])
+    autos = [s for s in range(nsess) if rng.random() < 0.15]
+    steps = []
+    cur = rng.randrange(nsess)
+    for _ in range(rng.randint(8, 26)):
+        if rng.random() < 0.45:
+            cur = rng.randrange(nsess)
+        steps.append(gen_stmt2(rng, cur))
+    order = list(range(nsess)); rng.shuffle(order)
+    for s in order:
+        steps.append([s, K.K_COMMIT, 0, 0, 0])
+    return {"init": gen_init(rng), "nsess": nsess, "autos": autos, "steps": steps}
+
+
+def gen_merge(rng):
+    return {"mode": "merge", "init": gen_init(rng), "nsess": 0, "autos": [], "steps": [],
+            "left": [gen_dml2(rng, 0) for _ in range(rng.randint(1, 5))],
+            "right": [gen_dml2(rng, 0) for _ in range(rng.randint(1, 5))]}
+
+
+FIXED = [
+    # unique value inserted by two transactions
+    {"init": [[101, 0, 0], [102, 1, 2], [1, 0, 1]], "nsess": 2, "autos": [], "steps": [[0, 4, 3, 2, 2], [1, 4, 4, 2, 2], [0, 1, 0, 0, 0], [1, 1, 0, 0, 0], [1, 3, 0, 0, 0]]},
+    # CHECK broken by the cell-wise merge of two valid updates
+    {"init": [[101, 0, 0], [102, 1, 2], [1, 1, 2]], "nsess": 2, "autos": [], "steps": [[0, 5, 1, 0, 2], [1, 5, 1, 1, 1], [0, 1, 0, 0, 0], [1, 1, 0, 0, 0], [1, 3, 0, 0, 0]]},
+    # parent deleted by one transaction, child inserted by another (both orders)
+    {"init": [[101, 0, 0], [102, 1, 1], [1, 0, 1]], "nsess": 2, "autos": [], "steps": [[0, 6, 102, 0, 0], [1, 4, 2, 1, 2], [0, 1, 0, 0, 0], [1, 1, 0, 0, 0], [1, 3, 0, 0, 0]]},
+    {"init": [[101, 0, 0], [102, 1, 1], [1, 0, 1]], "nsess": 2, "autos": [], "steps": [[1, 4, 2, 1, 2], [0, 6, 102, 0, 0], [1, 1, 0, 0, 0], [0, 1, 0, 0, 0], [0, 3, 0, 0, 0]]},
+    # statement-level FK / NOT NULL refusals
+    {"init": [[101, 0, 0], [102, 1, 1], [1, 0, 1]], "nsess": 1, "autos": [], "steps": [[0, 6, 101, 0, 0], [0, 4, 2, 1, 3], [0, 5, 101, 0, -1], [0, 4, 103, -1, 0], [0, 5, 1, 1, 3], [0, 7, 1, 1, 1], [0, 3, 0, 0, 0], [0, 8, 101, 0, 0]]},
+    # the unique validator's stale entry: a valid transaction is refused
+    {"init": [[101, 0, 0], [102, 1, 1], [2, 2, -1], [3, 0, 1], [4, -1, 1]], "nsess": 2, "autos": [],
+     "steps": [[0, 5, 3, 0, 1], [0, 4, 1, 0, 1], [1, 5, 4, 0, 2], [1, 1, 0, 0, 0], [0, 1, 0, 0, 0], [0, 3, 0, 0, 0]]},
+    # merges recording FK / unique / check violations
+    {"mode": "merge", "init": [[101, 0, 0], [102, 1, 1], [1, 0, 1]], "nsess": 0, "autos": [], "steps": [], "left": [[0, 6, 102, 0, 0]], "right": [[0, 4, 2, 1, 2], [0, 4, 3, 2, 2]]},
+    {"mode": "merge", "init": [[101, 0, 0], [102, 1, 2], [1, 0, 1], [2, 1, 2]], "nsess": 0, "autos": [], "steps": [], "left": [[0, 4, 3, 2, 2]], "right": [[0, 4, 4, 2, 2], [0, 5, 1, 0, 1], [0, 5, 2, 0, 0]]},
+    {"mode": "merge", "init": [[101, 0, 0], [102, 1, 2], [1, 0, 2]], "nsess": 0, "autos": [], "steps": [], "left": [[0, 5, 1, 0, 2]], "right": [[0, 5, 1, 1, 1]]},
+    # merge moving a unique value between rows on the right branch: spurious recorded violation
+    {"mode": "merge", "init": [[101, 0, 0], [102, 1, 2], [3, 0, 1]], "nsess": 0, "autos": [], "steps": [], "left": [[0, 4, 4, 2, 2]], "right": [[0, 5, 3, 0, 1], [0, 4, 1, 0, 1]]},
+]
 
 
 def gen_cases(rng, tier):
-    n = 250 if tier == "quick" else 8000
-    cases = [
-        {"init": [[1, 0, 0], [2, 1, 2]], "nsess": 2, "autos": [], "steps": [[0, 4, 3, 2, 2], [1, 4, 4, 2, 2], [0, 1, 0, 0, 0], [1, 1, 0, 0, 0], [1, 3, 0, 0, 0]]},
-        {"init": [[1, 1, 2], [2, 0, 2]], "nsess": 2, "autos": [], "steps": [[0, 5, 1, 0, 2], [1, 5, 1, 1, 1], [0, 1, 0, 0, 0], [1, 1, 0, 0, 0], [1, 3, 0, 0, 0]]},
-        {"init": [[1, 1, 2], [2, 0, 2]], "nsess": 2, "autos": [], "steps": [[0, 4, 3, 2, 2], [1, 5, 2, 0, 2], [0, 1, 0, 0, 0], [1, 1, 0, 0, 0], [1, 3, 0, 0, 0]]},
-    ]
-    # a valid transaction that moves a unique value between rows while another transaction committed: refused by the
-    # engine's merge-time unique validator (stale index entry) although the merged table is valid
-    cases.append({"init": [[2, 2, -1], [3, 0, 1], [4, -1, 1]], "nsess": 2, "autos": [],
-                  "steps": [[0, 5, 3, 0, 1], [0, 4, 1, 0, 1], [1, 5, 4, 1, 0], [1, 1, 0, 0, 0], [0, 1, 0, 0, 0], [0, 3, 0, 0, 0]]})
+    n = 300 if tier == "quick" else 9000
+    cases = [dict(c) for c in FIXED]
     while len(cases) < n:
-        c = G.gen_one_txn(rng)
-        # initial rows must satisfy the constraints
-        seen, init = set(), []
-        for k, a, b in c["init"]:
-            if a >= 0 and b >= 0 and a > b:
-                a, b = b, a
-            if a >= 0 and a in seen:
-                a = -1
-            if a >= 0:
-                seen.add(a)
-            init.append([k, a, b])
-        c["init"] = init
-        cases.append(c)
+        cases.append(gen_merge(rng) if rng.random() < 0.4 else gen_txn(rng))
     return cases
+
+
+def _keys(case):
+    ks = set(r[0] for r in case["init"])
+    for st in case["steps"] + case.get("left", []) + case.get("right", []):
+        if st[1] in (K.K_INSERT, K.K_UPDATE, K.K_DELETE, K.K_UPDADD, K.K_SELKEY):
+            ks.add(st[2])
+    # a child may reference any parent key: the universe must contain the referenced parent keys
+    for r in case["init"]:
+        if r[0] < 100 and r[2] >= 0:
+            ks.add(100 + r[2])
+    for st in case["steps"] + case.get("left", []) + case.get("right", []):
+        if st[2] < 100 and st[1] == K.K_INSERT and st[4] >= 0:
+            ks.add(100 + st[4])
+        if st[2] < 100 and st[1] == K.K_UPDATE and st[3] == 1 and st[4] >= 0:
+            ks.add(100 + st[4])
+    for x in range(101, 108):
+        ks.add(x)          # col + d may walk through the parent keys
+    return sorted(ks)
+
+
+def cq_input(case):
+    base = "{| i_U := %s; i_init := %s; i_autos := %s; i_sched := %s |}" % (
+        cq_list(str(k) for k in _keys(case)), cq_list(G.cq_row(r) for r in case["init"]),
+        cq_list(str(a) for a in case.get("autos", [])),
+        cq_list("(%d, %s)" % (st[0], G.cq_stmt(st)) for st in case["steps"]))
+    return "{| i_base := %s; i_merge := %s; i_left := %s; i_right := %s |}" % (
+        base, "true" if case.get("mode") == "merge" else "false",
+        cq_list(G.cq_stmt(st) for st in case.get("left", [])), cq_list(G.cq_stmt(st) for st in case.get("right", [])))
 
 
 def coq_case(case, out):
     o = out.get("obs")
-    inp = G.cq_input(case)
+    inp = cq_input(case)
     if o is None or out.get("err") or out.get("panic"):
-        return "(%s, {| o_steps := [] |})" % inp
-    steps = cq_list("(%s, %s, %d)" % (G.cq_sobs(s), cq_list(G.cq_row(r) for r in c), max(v, 0) if v >= 0 else 999)
+        return "(%s, {| o_steps := []; o_merr := 99; o_merged := []; o_vrows := [(99, 99)] |})" % inp
+    if case.get("mode") == "merge":
+        steps = cq_list("(%s, [], 0)" % G.cq_sobs(s) for s in o["steps"])
+        return "(%s, {| o_steps := %s; o_merr := %d; o_merged := %s; o_vrows := %s |})" % (
+            inp, steps, o["mergeerr"], cq_list(G.cq_row(r) for r in o["merged"]),
+            cq_list("(%d, %d)" % (v[0], v[1]) for v in o["vrows"]))
+    steps = cq_list("(%s, %s, %d)" % (G.cq_sobs(s), cq_list(G.cq_row(r) for r in c), v if v >= 0 else 999)
                     for s, c, v in zip(o["steps"], o["committed"], o["viol"]))
-    return "(%s, {| o_steps := %s |})" % (inp, steps)
+    return "(%s, {| o_steps := %s; o_merr := 0; o_merged := []; o_vrows := [] |})" % (inp, steps)
 
 
 def classify(case, out):
@@ -75,15 +211,27 @@ def classify(case, out):
     if o is None:
         return ["panic"]
     t = set()
-    fake = {"obs": {"steps": [dict(s, err=(1 if s["err"] == 1 else (0 if s["err"] == 0 else s["err"]))) for s in o["steps"]], "final": []}}
+    if case.get("mode") == "merge":
+        t.add("merge-case")
+        if o["mergeerr"] == 5:
+            t.add("merge-data-conflict")
+        elif o["mergeerr"]:
+            t.add("merge-error")
+        elif not o["vrows"]:
+            t.add("merge-clean")
+        for v in o["vrows"]:
+            t.add({1: "rec-fk", 2: "rec-unique", 3: "rec-check", 4: "rec-notnull"}.get(v[0], "rec-other"))
+        if any(s["err"] == 2 for s in o["steps"]):
+            t.add("stmt-constraint-error")
+        if o["vrows"]:
+            t.add("nontrivial")
+        return sorted(t)
+    fake = {"obs": {"steps": o["steps"], "final": []}}
     for x in G.classify_txn(case, fake):
         t.add(x)
     for st, s in zip(case["steps"], o["steps"]):
         if s["err"] == 2:
-            if st[1] in (G.K_COMMIT, G.K_BEGIN):
-                t.add("commit-constraint-error")
-            else:
-                t.add("stmt-constraint-error")
+            t.add("commit-constraint-error" if st[1] in (G.K_COMMIT, G.K_BEGIN) else "stmt-constraint-error")
     if any(v > 0 for v in o["viol"]):
         t.add("violations-recorded")
     return sorted(t)
@@ -93,5 +241,13 @@ def nontrivial(case, out):
     return "nontrivial" in classify(case, out)
 
 
-shrink_candidates = G.shrink_txn
-neighbours = G.neighbours_txn
+def shrink_candidates(case):
+    for f in ("steps", "left", "right", "init"):
+        st = case.get(f, [])
+        for i in range(len(st)):
+            c = dict(case); c[f] = st[:i] + st[i + 1:]
+            yield c
+
+
+def neighbours(case, rng):
+    return [gen_merge(rng) if case.get("mode") == "merge" else gen_txn(rng) for _ in range(60)]
